@@ -187,7 +187,14 @@ def history(tid, variant, rng, tier):
         elif c < 0.55 and len(out) >= 2 and not lost:
             ds = sorted(out) if variant == "fifo" else rng.sample(sorted(out), rng.randint(2, min(3, len(out))))
             ds = ds[:3]
-            s.replies_coalesced([out.pop(d) for d in ds])
+            items = [out.pop(d) for d in ds]
+            if variant == "dict" and rng.random() < 0.4:
+                # a reply nobody waits for (or a duplicate of one just delivered) travels in the same segment, in front of wanted ones
+                used = {v[0] for v in out.values()} | {x[0] for x in items}
+                cur = int(getattr(s.p.transaction, "tid", 0) or 0)
+                tu = next(x for x in ((cur + 20000) % 65536, (cur + 20001) % 65536, (cur + 20002) % 65536, (cur + 20003) % 65536) if x not in used)
+                items.insert(rng.randrange(len(items)), (tu, 1))
+            s.replies_coalesced(items)
         elif c < 0.75 and out and not lost:
             if variant == "dict":
                 d = rng.choice(list(out))
